@@ -257,7 +257,7 @@ def _index_spaces(ctx, index):
         isinstance(n, ast.BinOp)
         and isinstance(n.op, ast.Add)
         and "None" in norm(n.left)
-        and "getattr(function_def.args, defaults)" in norm(n.right)
+        and norm(n.right).startswith("getattr(function_def.args, ")
         for n in iter_own(ref.node)
     )
     ctx.need(pads_left, "the reference belief (function.parse pads defaults on the left) is no longer recognisable")
